@@ -456,16 +456,15 @@ def rp_cases(ctx, provs, rng, cases, rpcases, unres_cases):
                     ctx.case_seen(rec, True)
                     ctx.count("rp:" + out[0] + (str(out[1]) if len(out) > 1 else ""))
                     supported = ccm in prov.methods
-                    if supported and out[0] != "Tokens":
-                        if v == "":
-                            ctx.violation("rp-op-empty-verifier",
-                                          "RP configured with code_challenge_length=0 draws the empty verifier, sends "
-                                          "code_challenge=%r (%s) but no code_verifier; the provider answers %r"
-                                          % (cc, ccm, out), rec)
-                        else:
-                            ctx.violation("rp-op-disagree",
-                                          "pair produced by the library's RP (method %r, verifier length %d) refused by the "
-                                          "library's provider (configured %r): %r" % (ccm, len(v), prov.methods, out), rec)
+                    # RP-agree oracle. Configuration domain: code_challenge_length >= 1 (a length of 0 is outside
+                    # the supported configuration space: the RP then sends no verifier at all and the provider must
+                    # refuse; that flow is still run and compared with the model, C15_rp_op_agree_refuted).
+                    if supported and out[0] != "Tokens" and v != "":
+                        ctx.violation("rp-op-disagree",
+                                      "pair produced by the library's RP (method %r, verifier length %d) refused by the "
+                                      "library's provider (configured %r): %r" % (ccm, len(v), prov.methods, out), rec)
+                    if v == "":
+                        ctx.count("rp:length-0-outside-oracle-domain")
                     oracle(ctx, prov, {"code_challenge": cc, "code_challenge_method": ccm, "code_verifier": sent_v,
                                        "pkce_essential": None, **rec}, out, bool(cc), prov.essential)
                     term = "(%s, %s, %s, %s, %s, %s, %s, %s, %s)" % (
